@@ -1,8 +1,10 @@
 import Driver.Util
 import LemoModel.Rlp
 import LemoModel.Base26
+import LemoModel.RlpSchema
+import LemoModel.RlpCustom
 namespace Driver.C14
-open LemoModel LemoModel.Rlp Driver
+open LemoModel LemoModel.Rlp LemoModel.RlpSchema LemoModel.RlpCustom Driver
 
 def hexVal (c : Char) : Option Nat :=
   if '0' ≤ c ∧ c ≤ '9' then some (c.toNat - 48)
@@ -46,6 +48,71 @@ def showE {α} (f : α → String) : Except Err α → String
   | .ok a => "ok " ++ f a
   | .error e => "err " ++ e.name
 
+mutual
+  partial def showSchema : Schema → String
+    | .bytes => "bytes"
+    | .fixed n => s!"fixed{n}"
+    | .uint b => s!"uint{b}"
+    | .big => "big"
+    | .listOf s => "list(" ++ showSchema s ++ ")"
+    | .struct fs => "struct[" ++ ",".intercalate (fs.map showSchema) ++ "]"
+    | .optFixed n => s!"optfixed{n}"
+end
+
+def showPDec : PDec → String
+  | .strict s => "strict:" ++ showSchema s
+  | .emptyIface => "emptyiface"
+  | .loose n => s!"loose{n}"
+  | .nilOr s => "nilor:" ++ showSchema s
+  | .asset => "asset"
+  | .candidate => "candidate"
+
+def schemaByName : String → Option Schema
+  | "rlpHeader" => some headerSchema
+  | "txdata" => some txSchema
+  | "DeputyNode" => some deputyNodeSchema
+  | "BlockConfirmData" => some blockConfirmSchema
+  | "BlockConfirms" => some blockConfirmsSchema
+  | "ProtocolHandshake" => some handshakeSchema
+  | "rlpEvent" => some eventSchema
+  | "AssetEquity" => some assetEquitySchema
+  | "AssetFields" => some (.struct assetFields)
+  | _ => none
+
+/-- typed decode followed by typed encode: "ok <hex of the re-encoding>" or "err" -/
+def typedRe (name : String) (b : List UInt8) : Option String :=
+  let fin (r : Option Item) : Option String :=
+    some (match r with | some it' => "ok " ++ showHex (encode it') | none => "err")
+  let plain (s : Schema) : Option String :=
+    match decode b with
+    | .error _ => some "err"
+    | .ok it => fin ((decodeS s it).bind (encodeS s))
+  match name with
+  | "header" =>
+    match decode b with
+    | .error _ => some "err"
+    | .ok it => fin ((decodeHeader emptyTrieHash it).bind (encodeHeader emptyTrieHash))
+  | "tx" => plain txSchema
+  | "deputynode" => plain deputyNodeSchema
+  | "blockconfirm" => plain blockConfirmSchema
+  | "blockconfirms" => plain blockConfirmsSchema
+  | "handshake" => plain handshakeSchema
+  | "event" => plain eventSchema
+  | "assetequity" => plain assetEquitySchema
+  | "asset" =>
+    match decode b with
+    | .error _ => some "err"
+    | .ok it => fin ((decodeAsset it).bind encodeAsset)
+  | "changelog" =>
+    match decode b with
+    | .error _ => some "err"
+    | .ok it => fin ((decodeChangeLog it).bind encodeChangeLog)
+  | "changelogs" =>
+    match decode b with
+    | .error _ => some "err"
+    | .ok it => fin ((decodeLogSlice it).bind encodeLogSlice)
+  | _ => none
+
 def step (s : Unit) (w : List String) : Unit × String :=
   match w with
   | ["dec", h] =>
@@ -79,6 +146,21 @@ def step (s : Unit) (w : List String) : Unit × String :=
   | ["rcount", h] =>
     match parseHex h with
     | some b => (s, showE toString (rawCount b))
+    | none => (s, "bad-op")
+  | ["typed", name, h] =>
+    match parseHex h with
+    | some b => (s, (typedRe name b).getD "bad-op")
+    | none => (s, "bad-op")
+  | ["schema", name] =>
+    match schemaByName name with
+    | some sc => (s, showSchema sc)
+    | none => (s, "bad-op")
+  | ["logdec", n] =>
+    match n.toNat? with
+    | some n =>
+      (s, match logDecoders n with
+          | some (p, q) => showPDec p ++ " " ++ showPDec q
+          | none => "none")
     | none => (s, "bad-op")
   | ["addr", h] =>
     match parseHex h with
